@@ -113,6 +113,26 @@ def negative_control(prop, wd, name, binary, kf_names):
     # a conforming, judged line of an in-memory backend early in the trace (its instance is certainly tracked)
     tracked = set()
     pick = None
+    if prop == "C07":
+        for i, r in enumerate(rows):
+            if r.get("ev") == "new" and r.get("init0") == 1 and r.get("next") == 0:
+                tracked.add(r["inst"])
+            elif r.get("ev") == "drop":
+                tracked.discard(r["inst"])
+            elif r.get("ev") == "override" and r.get("be") == "pm":
+                tracked.discard(r["inst"])
+            elif r.get("ev") == "proof" and r.get("inst") in tracked and r.get("res") == "ok" and r.get("sib"):
+                pick = i
+                break
+        if pick is None:
+            return None
+        rows[pick]["sib"][-1] = rows[pick]["sib"][-1] + 1
+        cp = prefix + "-neg.trace.ndjson"
+        write_ndjson(cp, rows)
+        res = tlc_judge("Trace_Hook", "Trace_Hook.cfg", {"TRACE": cp, "TABLE": tb, "CTL": prefix + ".ctl.json"}, f"hook-{prop}-{name}-neg", timeout=900)
+        if res["tool_error"]:
+            raise ToolError("hook negative control failed to run:\n" + res["tool_error"])
+        return (pick + 1) in res["dev"]
     for i, r in enumerate(rows):
         if r.get("ev") == "new" and r.get("init0") == 1 and r.get("next") == 0:
             tracked.add(r["inst"])
@@ -167,6 +187,8 @@ def run_repo_tests(prop, tier, wd, binary, kf_names, kf_desc, out):
         hd = hook_env(wd, name)
         cmd = ["cargo", "test", "--offline", "-p", pkg] + feats + targs + ["--", "--test-threads", "4"]
         env = {"CARGO_TARGET_DIR": target, "RUSTFLAGS": RUSTFLAGS, "ZEROKIT_VERIF_TRACE": hd, "CARGO_NET_OFFLINE": "true"}
+        if prop == "C07":
+            env["ZEROKIT_VERIF_TRACE_PROOFS"] = "1"
         rc, o = run(cmd, cwd=REPO, env=env, timeout=3600)
         if "error: could not compile" in o or "error[E" in o:
             raise ToolError(f"the repository's tests do not build with the hook on:\n{o[-3000:]}")
@@ -177,7 +199,7 @@ def run_repo_tests(prop, tier, wd, binary, kf_names, kf_desc, out):
         ran.append(f"{pkg} {' '.join(feats + targs)}: {passed} tests passed, {st.get('events', 0)} hook lines from {st.get('files', 0)} processes, {j} calls judged")
     out.notes.append("repository tests as drivers (hook H2): " + "; ".join(ran))
     out.add(repo_test_calls_judged=judged)
-    if judged == 0 and prop != "C08":
+    if judged == 0 and prop not in ("C08",):
         raise ToolError("vacuity: the repository's tests produced no judged hook line (hook not compiled in?)")
     return judged
 
